@@ -359,7 +359,10 @@ def run(tier, seed):
                       {'first_job': pair[0], 'second_job': pair[1], 'detail': detail})
     # (e) two jobs at the same time: nothing of one job shows in the other
     from . import concur
-    cpairs = [(world.POP_MIXED, a, b, 1 if tier == 'quick' else 2) for a, b in CONCURRENT]
+    cpairs = [(world.POP_MIXED, a, b, 1) for a, b in CONCURRENT]
+    if tier != 'quick':
+        cpairs.append((world.POP_MIXED, 'define m 5 print m', 'define m 9 print m', 2))
+        cpairs.append((world.POP_MIXED, 'assign v 3 print v', 'assign v 50 print v', 2))
     ctasks = concur.split(cpairs, 4 if tier == 'quick' else 8)
     cres = par.run_tasks(concur.pair_task, ctasks)
     cexec = sum(r['execs'] for r in cres)
@@ -382,7 +385,7 @@ def run(tier, seed):
                 '(b) for each program: 2 complete runs + for every instruction index k a stopped run and a complete run; '
                 '(c) every ordered pair of %d jobs; (e) %d pairs of jobs on two controlled threads, every schedule with <=%d '
                 'preemptions at line granularity, each job compared with its solo run.  distinct_nontrivial = distinct '
-                'complete traces in (b)' % (depth, len(JOBS), len(CONCURRENT), 1 if tier == 'quick' else 2),
+                'complete traces in (b)' % (depth, len(JOBS), len(cpairs), max(t[3] for t in cpairs)),
         'exhaustive': True,
         'compile_history_states': cstats['states'],
         'compile_history_transitions': cstats['transitions'],
@@ -392,7 +395,7 @@ def run(tier, seed):
         'runs': tot('runs'),
         'stop_points_explored': tot('steps'),
         'job_pairs': npairs,
-        'concurrent_job_pairs': len(CONCURRENT),
+        'concurrent_job_pairs': len(cpairs),
         'concurrent_schedules': cexec,
         'samples': [[TEXTS[8], TEXTS[0]], 'stop at every k of: repeat with i0 from 1 to 2 if { i0 == 1 } print 1', JOBS[3]],
     }
